@@ -67,6 +67,7 @@ func checkC17(p *Prog, res *Result, tier string) {
 	res.rule("C17-R7", "every adapter compares before it deletes in its compare-and-delete (C11-R1): expiry relies on it for index records", 3)
 	res.rule("C17-R6", "expiry deletes follow the worker's failed-delete discipline with the record's user key, so that an event is removed wholly or its remaining records are left alone (C07-R4)", 2)
 	res.rule("C17-R9", "the index record and the version record of one write carry the same TTL: an Event expires wholly", 4)
+	res.rule("C17-R10", "a compaction mark (revision, time logged) is immutable: its fields are written where it is made and nowhere else - 'older than the TTL' on engines without native TTL is read off these pairs", 1)
 	res.rule("C17-R5", "expiry disabled on engines with native TTL; TTL handed to the engine only on the classified branch", 2)
 
 	prefixF := p.structField("pkg/backend", "Config", "Prefix")
@@ -701,6 +702,7 @@ func checkC17(p *Prog, res *Result, tier string) {
 		}
 	}
 
+	checkCompactMarksImmutable(p, res, "C17-R10")
 	// ---- R6: the failed-delete discipline on the expiry chains (C07-R4) ----
 	if !c17NoImports {
 		sub7 := p.subResult("C07", tier)
@@ -725,6 +727,15 @@ func checkC17(p *Prog, res *Result, tier string) {
 			if o.Rule == "C11-R10" || o.Rule == "C11-R15" {
 				res.add("C17-R8", o.Rule+" "+o.Construct, o.Status, o.Pos, o.Detail)
 			}
+		}
+	}
+	// .. and each record of a batch is expired by a timer that sees that record: the timer's function does not refer
+	// to a variable the commit loop overwrites (C19-R10)
+	{
+		sub := newResult("C19")
+		checkLoopVarCapture(p, sub, "C19-R10")
+		for _, o := range sub.Obls {
+			res.add("C17-R8", o.Rule+" "+o.Construct, o.Status, o.Pos, o.Detail)
 		}
 	}
 
@@ -901,4 +912,64 @@ func storesIntoCell(cell ssa.Value, depth int) []*ssa.Store {
 		}
 	}
 	return out
+}
+
+// checkCompactMarksImmutable (C17-R10): on engines without native TTL "older than the TTL" is decided from the marks
+// the scanner logs at every compaction - pairs (revision, time it was logged). The pair is the evidence: a mark's
+// revision and time are written where the mark is made and nowhere else (a mark whose revision is moved forward keeps
+// its old time, and everything up to the new revision counts as expired although it may be seconds old).
+func checkCompactMarksImmutable(p *Prog, res *Result, rule string) {
+	sp := p.ssaPkg("pkg/backend/scanner")
+	// the mark type: a struct of the scanner package with a time.Time field and an unsigned integer field
+	var marks []*types.Named
+	for _, name := range sp.Pkg.Scope().Names() {
+		tn, ok := sp.Pkg.Scope().Lookup(name).(*types.TypeName)
+		if !ok {
+			continue
+		}
+		n, ok := tn.Type().(*types.Named)
+		if !ok {
+			continue
+		}
+		st, ok := n.Underlying().(*types.Struct)
+		if !ok || st.NumFields() != 2 {
+			continue
+		}
+		hasTime, hasRev := false, false
+		for i := 0; i < st.NumFields(); i++ {
+			if isNamed(st.Field(i).Type(), "time", "Time") {
+				hasTime = true
+			}
+			if bt, ok := st.Field(i).Type().Underlying().(*types.Basic); ok && bt.Kind() == types.Uint64 {
+				hasRev = true
+			}
+		}
+		if hasTime && hasRev {
+			marks = append(marks, n)
+		}
+	}
+	if len(marks) == 0 {
+		res.und(rule, "compaction marks", "-", "no (revision, time) pair type in the scanner package")
+		return
+	}
+	for _, n := range marks {
+		st := n.Underlying().(*types.Struct)
+		k := 0
+		var bad ssa.Instruction
+		for i := 0; i < st.NumFields(); i++ {
+			for _, s := range p.fields().stores[st.Field(i)] {
+				k++
+				fa, ok := s.Addr.(*ssa.FieldAddr)
+				if !ok || !isFreshObject(fa.X) {
+					bad = s
+				}
+			}
+		}
+		construct := fmt.Sprintf("%s.%s: revision and time are written at construction only", sp.Pkg.Name(), n.Obj().Name())
+		if bad != nil {
+			res.bad(rule, construct, p.pos(bad.Pos()), "a field of an existing compaction mark is rewritten: the mark then pairs a revision with the time of another compaction, and the expiry scan takes everything up to that revision for older than the TTL - Events that are seconds old are removed")
+		} else {
+			res.ok(rule, construct, p.pos(n.Obj().Pos()), fmt.Sprintf("%d store(s), all into a freshly made mark", k))
+		}
+	}
 }
